@@ -33,6 +33,7 @@ fn workers() -> usize {
 fn warm_up() {
     hashseam::set_thread_hash_seed(0x00C0_FFEE);
     worlds::hierarchy::warm_up();
+    worlds::batched::warm_up();
 }
 
 fn run_world<W: World>(world: W, tier: Tier) -> i32 {
@@ -188,6 +189,7 @@ macro_rules! dispatch {
     ($name:expr, $f:ident $(, $arg:expr)*) => {
         match $name {
             "hierarchy" | "C04" => $f(worlds::hierarchy::Hierarchy $(, $arg)*),
+            "batched" | "C15" => $f(worlds::batched::Batched $(, $arg)*),
             other => harness_error(&format!("unknown world/property {other}")),
         }
     };
@@ -243,6 +245,7 @@ fn main() {
         }
         "worlds" => {
             println!("hierarchy");
+            println!("batched");
             0
         }
         "digest" => {
